@@ -1,8 +1,633 @@
+/-
+Driver mode c18: libdialect separation constraints. Reads the case stream of harness/c18.cpp, runs
+the model (AdaptaVerif.Model.Sep) and decides per case:
+  SPECFAIL — the C++ outputs themselves violate the property text (a placement on which transform
+             equivariance fails; a composition that is not the D4 product; constraints stored after
+             a history that do not mean what was requested; a TGLF round trip that changes geometry,
+             routes or the meaning of a constraint), each with a concrete witness;
+  DIVERGE  — the C++ differs from the model on an observable although no property violation is shown.
+Argument `--impl-flag stale|fixed`: which `flippedRetrieval` semantics of `SepMatrix::getSepPair` the
+C++ is expected to follow (stale = flag written only on creation, the code as found; fixed = written
+on every retrieval). SPECFAIL decisions never depend on it (the requested meaning is always the
+fixed semantics); it only selects the model used for the exact structural comparison.
+-/
 import Driver.Proto
+import AdaptaVerif.Model.Sep
 namespace Driver.C18
+open Driver AdaptaVerif.Num AdaptaVerif.Model.Sep
 
-def run (_args : List String) : IO UInt32 := do
-  IO.eprintln "driver mode c18: not implemented yet"
-  return 2
+/-! ### token parsing -/
+
+def gt? : String → Option GapType
+  | "C" => some .centre | "B" => some .bdry | _ => none
+def st? : String → Option SepType
+  | "NONE" => some .none | "EQ" => some .eq | "INEQ" => some .ineq | _ => none
+def sd? : String → Option SepDir
+  | "EAST" => some .east | "SOUTH" => some .south | "WEST" => some .west | "NORTH" => some .north
+  | "RIGHT" => some .right | "DOWN" => some .down | "LEFT" => some .left | "UP" => some .up | _ => none
+def cd? : String → Option CardinalDir
+  | "EAST" => some .east | "SOUTH" => some .south | "WEST" => some .west | "NORTH" => some .north
+  | _ => none
+def tf? (s : String) : Option SepTransform := SepTransform.all[nat! s]?
+def tfOf (i : Nat) : SepTransform := SepTransform.all[i]?.getD .ident
+def tfIndex (t : SepTransform) : Nat := (SepTransform.all.findIdx? (· == t)).getD 0
+
+def sz? (s : String) : Option SZ :=
+  match parseDbl s with
+  | some (.fin sign v) => some (SZ.ofSignVal sign v)
+  | _ => match s.toInt? with
+    | some i => some (SZ.ofRat (i : Rat))
+    | none => none
+
+def gtS : GapType → String | .centre => "C" | .bdry => "B"
+def stS : SepType → String | .none => "NONE" | .eq => "EQ" | .ineq => "INEQ"
+def szS (g : SZ) : String := (if g.neg then "-" else "+") ++ ratToString g.mag
+def fieldsS (sp : SepPair) : String :=
+  s!"{gtS sp.xgt} {stS sp.xst} {szS sp.xgap} {gtS sp.ygt} {stS sp.yst} {szS sp.ygap}"
+
+/-- decimal numeral `[-]ddd[.ddd]` -/
+def dec? (s : String) : Option Dec :=
+  let cs := s.toList
+  let (neg, cs) := match cs with
+    | '-' :: r => (true, r)
+    | r => (false, r)
+  let ip := cs.takeWhile (· != '.')
+  let fp := (cs.dropWhile (· != '.')).drop 1
+  if ip.isEmpty || !(ip ++ fp).all Char.isDigit then none
+  else match (String.ofList (ip ++ fp)).toNat? with
+    | some n => some { neg := neg, units := n, prec := fp.length }
+    | none => none
+
+/-- six tokens of a SEPCO line -/
+def tglfLine? (t : Array String) (o : Nat) : Option TglfLine := do
+  let src ← (t[o]?).bind String.toNat?
+  let tgt ← (t[o+1]?).bind String.toNat?
+  let gt ← (t[o+2]?).bind gt?
+  let ds ← t[o+3]?
+  let dir ← match ds.toList with
+    | [c] => DirLetter.ofChar? c
+    | _ => none
+  let rel ← t[o+4]?
+  let isEq ← if rel == "==" then some true else if rel == ">=" then some false else none
+  let gap ← (t[o+5]?).bind dec?
+  pure { src := src, tgt := tgt, gt := gt, dir := dir, isEq := isEq, gap := gap }
+
+/-- `<n> tok*6n` or `THROW`, starting at token `o`; outer none = malformed, inner none = THROW -/
+def tglfLines? (t : Array String) (o : Nat) : Option (Option (List TglfLine)) :=
+  if t[o]? == some "THROW" then some none else do
+    let n ← (t[o]?).bind String.toNat?
+    let mut ls : List TglfLine := []
+    for i in [0:n] do
+      let l ← tglfLine? t (o + 1 + 6 * i)
+      ls := ls ++ [l]
+    pure (some ls)
+
+/-- `none` | `left right gap eq` at token `o`; returns the constraint and the next offset -/
+def vcon? (t : Array String) (o : Nat) : Option (Option VCon × Nat) :=
+  if t[o]? == some "none" then some (none, o + 1) else do
+    let l ← (t[o]?).bind String.toNat?
+    let r ← (t[o+1]?).bind String.toNat?
+    let g ← (t[o+2]?).bind num?
+    let e ← t[o+3]?
+    pure (some { left := l, right := r, gap := g, equality := e == "1" }, o + 4)
+
+def vcons? (t : Array String) (o : Nat) : Option (List VCon) := do
+  let n ← (t[o]?).bind String.toNat?
+  let mut cs : List VCon := []
+  let mut p := o + 1
+  for _ in [0:n] do
+    let (c, p') ← vcon? t p
+    match c with
+    | some c => cs := cs ++ [c]
+    | none => failure
+    p := p'
+  pure cs
+
+def vconS (c : VCon) : String :=
+  s!"[{c.left}+{ratToString c.gap}{if c.equality then "=" else "<="}{c.right}]"
+def vconsS (cs : List VCon) : String := " ".intercalate (cs.map vconS)
+
+/-! ### meaning of generated constraints -/
+
+/-- canonical form: an equality is reoriented so that left < right; inequalities stay -/
+def vconNorm (c : VCon) : VCon :=
+  if c.equality && c.right < c.left then { c with left := c.right, right := c.left, gap := -c.gap } else c
+
+def vconLt (a b : VCon) : Bool :=
+  let ka := (min a.left a.right, max a.left a.right)
+  let kb := (min b.left b.right, max b.left b.right)
+  keyLt ka kb
+
+def insertSorted (c : VCon) : List VCon → List VCon
+  | [] => [c]
+  | d :: r => if vconLt c d then c :: d :: r else d :: insertSorted c r
+
+def normList (cs : List VCon) : List VCon := (cs.map vconNorm).foldl (fun acc c => insertSorted c acc) []
+
+/-- does `c` hold with `pos` ? -/
+def vconHolds (c : VCon) (pos : Nat → Rat) : Bool :=
+  if c.equality then pos c.left + c.gap == pos c.right else pos c.left + c.gap ≤ pos c.right
+
+def allHold (cs : List VCon) (pos : Nat → Rat) : Bool := cs.all (vconHolds · pos)
+
+/-- candidate offsets (pos hi − pos lo) that can distinguish constraints with the given gaps -/
+def offsets (cs : List VCon) : List Rat :=
+  let gs := cs.map (·.gap)
+  (0 :: 1 :: -1 :: gs.flatMap fun g => [g, -g, g + 1, -g - 1, g - 1, -g + 1]).eraseDups
+
+/-- Are two constraint lists (one dimension) the same statement pair by pair? If not, return a
+    witness: ids (a, b) and an offset `pos b − pos a` on which exactly one side holds. -/
+def distinguish (cs₁ cs₂ : List VCon) : Option (Nat × Nat × Rat) := Id.run do
+  let n₁ := normList cs₁
+  let n₂ := normList cs₂
+  if n₁ == n₂ then return none
+  -- find a pair on which they differ
+  let keys := ((n₁ ++ n₂).map fun c => (min c.left c.right, max c.left c.right)).eraseDups
+  for (a, b) in keys do
+    let f (l : List VCon) := l.filter fun c => (min c.left c.right, max c.left c.right) == (a, b)
+    let p₁ := f n₁
+    let p₂ := f n₂
+    if p₁ != p₂ then
+      for d in offsets (p₁ ++ p₂) do
+        let pos : Nat → Rat := fun i => if i == b then d else 0
+        if allHold p₁ pos != allHold p₂ pos then return some (a, b, d)
+  return none
+
+/-! ### table cases -/
+
+structure Row where
+  dir : SepDir
+  st : SepType
+  gt : GapType
+  gap : SZ
+  extra : Rat
+  base : Nat
+  prec : Nat
+  deriving Inhabited
+
+def baseTable (r : Row) : SepPair :=
+  let sp0 : SepPair := { src := 3, tgt := 8, tglfPrecision := r.prec }
+  let sp0 := if r.base == 1 then
+      (sp0.addSep .bdry .right .ineq (SZ.ofRat 3)).addSep .centre .up .eq (SZ.ofRat 4)
+    else sp0
+  sp0.addSep r.gt r.dir r.st r.gap
+
+def fields? (t : Array String) (o : Nat) : Option (GapType × SepType × SZ × GapType × SepType × SZ) := do
+  let a ← (t[o]?).bind gt?
+  let b ← (t[o+1]?).bind st?
+  let c ← (t[o+2]?).bind sz?
+  let d ← (t[o+3]?).bind gt?
+  let e ← (t[o+4]?).bind st?
+  let f ← (t[o+5]?).bind sz?
+  pure (a, b, c, d, e, f)
+
+def fieldsOf (sp : SepPair) := (sp.xgt, sp.xst, sp.xgap, sp.ygt, sp.yst, sp.ygap)
+
+def fS (f : GapType × SepType × SZ × GapType × SepType × SZ) : String :=
+  s!"{gtS f.1} {stS f.2.1} {szS f.2.2.1} {gtS f.2.2.2.1} {stS f.2.2.2.2.1} {szS f.2.2.2.2.2}"
+
+structure Acc where
+  spec : Option String := none
+  div : Option String := none
+  stats : List (String × Nat) := []
+
+def Acc.specfail (a : Acc) (m : String) : Acc := if a.spec.isSome then a else { a with spec := some m }
+def Acc.diverge (a : Acc) (m : String) : Acc := if a.div.isSome then a else { a with div := some m }
+def Acc.bump (a : Acc) (k : String) (n : Nat := 1) : Acc := { a with stats := bumpStats a.stats k n }
+def Acc.result (a : Acc) (nontrivial : Bool := true) : CaseResult :=
+  match a.spec, a.div with
+  | some m, _ => { verdict := .specfail m, nontrivial := nontrivial, stats := a.stats }
+  | none, some m => { verdict := .diverge m, nontrivial := nontrivial, stats := a.stats }
+  | none, none => { verdict := .ok, nontrivial := nontrivial, stats := a.stats }
+
+def sizeFn (sw sh tw th : Rat) (swap : Bool) : Nat → Dim → Rat := fun id d =>
+  let (w, h) := if id == 3 then (sw, sh) else (tw, th)
+  let (w, h) := if swap then (h, w) else (w, h)
+  match d with | .x => w | .y => h
+
+/-- centre placements used to test equivariance on the C++'s own constraints -/
+def samplePlacements (cs : List VCon) : List (Rat × Rat × Rat × Rat) :=
+  let offs := offsets cs
+  (offs.flatMap fun dx => offs.map fun dy => ((0 : Rat), (0 : Rat), dx, dy)) ++
+  (offs.flatMap fun dx => offs.map fun dy => ((3 : Rat), (-2 : Rat), 3 + dx, -2 + dy))
+
+def checkTable (c : Case) : CaseResult := Id.run do
+  let mut acc : Acc := {}
+  let some sz := (c.get1 "sizes").bind nums? | return { verdict := .diverge "no sizes line" }
+  let (sw, sh, tw, th) := (sz[0]!, sz[1]!, sz[2]!, sz[3]!)
+  -- rows
+  let mut rows : Array Row := #[]
+  for l in c.get "I" do
+    match sd? l[1]!, st? l[2]!, gt? l[3]!, sz? l[4]!, num? l[5]! with
+    | some d, some s, some g, some gap, some e =>
+      rows := rows.push { dir := d, st := s, gt := g, gap := gap, extra := e, base := nat! l[6]!, prec := nat! l[7]! }
+    | _, _, _, _, _ => return { verdict := .diverge s!"unparsable I line {l}" }
+  -- C++ observations indexed by (row, tf)
+  let mut implF : Array (Array (Option (GapType × SepType × SZ × GapType × SepType × SZ))) :=
+    Array.replicate rows.size (Array.replicate 8 none)
+  let mut implC : Array (Array (Option (Option VCon × Option VCon))) :=
+    Array.replicate rows.size (Array.replicate 8 none)
+  for l in c.get "F" do
+    let r := nat! l[0]!; let t := nat! l[1]!
+    implF := implF.modify r (·.set! t (fields? l 2))
+  for l in c.get "C" do
+    let r := nat! l[0]!; let t := nat! l[1]!
+    -- C r t X <con> Y <con>
+    match vcon? l 3 with
+    | some (cx, p) => match vcon? l (p + 1) with
+      | some (cy, _) => implC := implC.modify r (·.set! t (some (cx, cy)))
+      | none => pure ()
+    | none => pure ()
+  -- model vs C++: fields, constraints
+  for ri in [0:rows.size] do
+    let row := rows[ri]!
+    let sp0 := baseTable row
+    for t in [0:8] do
+      let tf := tfOf t
+      let sp := sp0.transform tf
+      acc := acc.bump "rows.tf"
+      match implF[ri]![t]! with
+      | none => acc := acc.diverge s!"row {ri} tf {t}: missing/unparsable F line"
+      | some f =>
+        if f != fieldsOf sp then
+          acc := acc.diverge s!"row {ri} tf {t}: fields impl [{fS f}] model [{fieldsS sp}]"
+      let size := sizeFn sw sh tw th tf.swapsAxes
+      let mx := sp.generateSeparationConstraint .x row.extra size
+      let my := sp.generateSeparationConstraint .y row.extra size
+      match implC[ri]![t]! with
+      | none => acc := acc.diverge s!"row {ri} tf {t}: missing/unparsable C line"
+      | some (cx, cy) =>
+        if cx != mx || cy != my then
+          acc := acc.diverge s!"row {ri} tf {t}: generated constraints impl X {cx.map vconS} Y {cy.map vconS} model X {mx.map vconS} Y {my.map vconS}"
+        if mx.isSome || my.isSome then acc := acc.bump "rows.constrained"
+    -- property on the C++ outputs alone: equivariance under sampled placements
+    match implC[ri]![0]! with
+    | some (cx0, cy0) =>
+      for t in [1:8] do
+        let tf := tfOf t
+        match implC[ri]![t]! with
+        | some (cxt, cyt) =>
+          let all := (cx0.toList ++ cy0.toList ++ cxt.toList ++ cyt.toList)
+          for (sx, sy, tx, ty) in samplePlacements all do
+            let before := allHold cx0.toList (fun i => if i == 3 then sx else tx) &&
+                          allHold cy0.toList (fun i => if i == 3 then sy else ty)
+            let s' := tf.applyPt sx sy
+            let t' := tf.applyPt tx ty
+            let after := allHold cxt.toList (fun i => if i == 3 then s'.1 else t'.1) &&
+                         allHold cyt.toList (fun i => if i == 3 then s'.2 else t'.2)
+            acc := acc.bump "equivariance.placements"
+            if before != after then
+              acc := acc.specfail s!"transform_equivariant violated: row {ri} ({repr row.dir} {stS row.st} {gtS row.gt} gap {szS row.gap} extra {ratToString row.extra} base {row.base}) tf {repr tf}: src=({ratToString sx},{ratToString sy}) tgt=({ratToString tx},{ratToString ty}) satisfies original={before} but image satisfies transformed={after}; impl constraints before X {cx0.map vconS} Y {cy0.map vconS}, after X {cxt.map vconS} Y {cyt.map vconS}"
+        | none => pure ()
+    | none => pure ()
+  -- compositions: C++ (t then t2) must equal C++ single transform comp(t2, t); and the model
+  for l in c.get "G" do
+    let r := nat! l[0]!; let t := nat! l[1]!; let t2 := nat! l[2]!
+    let f := fields? l 3
+    let row := rows[r]!
+    let spm := ((baseTable row).transform (tfOf t)).transform (tfOf t2)
+    acc := acc.bump "compositions"
+    if f != some (fieldsOf spm) then
+      acc := acc.diverge s!"row {r} tf {t} then {t2}: fields impl {f.map fS} model [{fieldsS spm}]"
+    let tc := tfIndex ((tfOf t2).comp (tfOf t))
+    if f != implF[r]![tc]! then
+      acc := acc.specfail s!"transform_group violated: row {r} ({repr row.dir} {stS row.st} {gtS row.gt} gap {szS row.gap} base {row.base}): {repr (tfOf t)} then {repr (tfOf t2)} gives [{f.map fS}] but {repr (tfOf tc)} gives [{(implF[r]![tc]!).map fS}]"
+  -- TGLF lines
+  for l in c.get "W" do
+    let r := nat! l[0]!; let t := nat! l[1]!
+    let row := rows[r]!
+    let sp := (baseTable row).transform (tfOf t)
+    let mw := sp.writeTglf row.extra
+    match tglfLines? l 2 with
+    | none => acc := acc.diverge s!"row {r} tf {t}: unparsable W line {l}"
+    | some iw =>
+      if iw != mw then
+        acc := acc.diverge s!"row {r} tf {t}: writeTglf impl {iw.map (·.map TglfLine.render)} model {mw.map (·.map TglfLine.render)}"
+      if iw.isNone then acc := acc.bump "tglf.throw"
+      -- round trip of the C++ text through the (model) reader against the C++'s own constraints
+      match iw, implC[r]![t]! with
+      | some ls, some (cx, cy) =>
+        match readSepcos true ls with
+        | none => acc := acc.diverge s!"row {r} tf {t}: reader rejects {ls.map TglfLine.render}"
+        | some m2 =>
+          let size := sizeFn sw sh tw th (tfOf t).swapsAxes
+          let rx := m2.generateSeparationConstraints .x size
+          let ry := m2.generateSeparationConstraints .y size
+          match distinguish cx.toList rx, distinguish cy.toList ry with
+          | none, none => pure ()
+          | wx, wy =>
+            acc := acc.specfail s!"tglf_roundtrip violated: row {r} ({repr row.dir} {stS row.st} {gtS row.gt} gap {szS row.gap} extra {ratToString row.extra} base {row.base}) tf {repr (tfOf t)}: written {ls.map TglfLine.render} reads back as X {vconsS rx} Y {vconsS ry} but the pair generates X {cx.map vconS} Y {cy.map vconS}; witness offset x {repr wx} y {repr wy}"
+      | _, _ => pure ()
+  -- cardinal queries
+  for l in c.get "Q" do
+    let r := nat! l[0]!
+    let sp := baseTable rows[r]!
+    let b (x : Bool) := if x then "1" else "0"
+    let cdS := match sp.getCardinalDir with
+      | some .east => "EAST" | some .south => "SOUTH" | some .west => "WEST" | some .north => "NORTH"
+      | none => "THROW"
+    let m := #[b sp.isVerticalCardinal, b sp.isHorizontalCardinal, b sp.isVAlign, b sp.isHAlign, b sp.isCardinal, cdS]
+    if l.extract 1 7 != m then
+      acc := acc.diverge s!"row {r}: cardinal queries impl {l.extract 1 7} model {m}"
+  for l in c.get "D" do
+    match sd? l[0]!, sd? l[1]!, sd? l[3]!, sd? l[4]! with
+    | some d, some n, some lw, some cs =>
+      if negateSepDir d != n || (sepDirIsCardinal d) != (l[2]! == "1") || lateralWeakening d != lw || cardinalStrengthening d != cs then
+        acc := acc.diverge s!"SepDir functions: impl {l}"
+      -- negation is an involution that exchanges opposite directions (property-level sanity)
+    | _, _, _, _ => acc := acc.diverge s!"unparsable D line {l}"
+  return acc.result
+
+/-! ### op histories -/
+
+def ids? (t : Array String) (o : Nat) : Option (List Nat) := do
+  let n ← (t[o]?).bind String.toNat?
+  let mut l : List Nat := []
+  for i in [0:n] do
+    let x ← (t[o+1+i]?).bind String.toNat?
+    l := l ++ [x]
+  pure l
+
+/-- `op <i> name args…` (tokens after the keyword `op`) -/
+def op? (t : Array String) : Option Op := do
+  let name ← t[1]?
+  let n (i : Nat) : Option Nat := (t[i]?).bind String.toNat?
+  match name with
+  | "addSep" => pure (.addSep (← n 2) (← n 3) (← (t[4]?).bind gt?) (← (t[5]?).bind sd?) (← (t[6]?).bind st?) (← (t[7]?).bind sz?))
+  | "addFixedRelativeSep" => pure (.addFixedRelativeSep (← n 2) (← n 3) (← (t[4]?).bind sz?) (← (t[5]?).bind sz?))
+  | "setCardinalOP" => pure (.setCardinalOP (← n 2) (← n 3) (← (t[4]?).bind cd?))
+  | "hAlign" => pure (.hAlign (← n 2) (← n 3))
+  | "vAlign" => pure (.vAlign (← n 2) (← n 3))
+  | "alignByEquatedCoord" => pure (.alignByEquatedCoord (← n 2) (← n 3) (if t[4]? == some "X" then .x else .y))
+  | "free" => pure (.free (← n 2) (← n 3))
+  | "removeNode" => pure (.removeNode (← n 2))
+  | "clear" => pure .clear
+  | "transform" => pure (.transform (← (t[2]?).bind tf?))
+  | "transformClosed" => pure (.transformClosed (← (t[2]?).bind tf?) (← ids? t 3))
+  | "transformOpen" => pure (.transformOpen (← (t[2]?).bind tf?) (← ids? t 3))
+  | "roundGapsUpward" => pure .roundGapsUpward
+  | "setExtraBdryGap" => pure (.setExtraBdryGap (← (t[2]?).bind num?))
+  | "getCardinalDir" => pure (.getCardinalDir (← n 2) (← n 3))
+  | "areHAligned" => pure (.areHAligned (← n 2) (← n 3))
+  | "areVAligned" => pure (.areVAligned (← n 2) (← n 3))
+  | _ => none
+
+def resS : OpRes → String
+  | .done => "done"
+  | .threw => "threw"
+  | .card (.dir .east) => "card EAST" | .card (.dir .south) => "card SOUTH"
+  | .card (.dir .west) => "card WEST" | .card (.dir .north) => "card NORTH"
+  | .card .noConstraint => "card NOCONSTRAINT" | .card .notCardinal => "card NOTCARDINAL"
+  | .bool true => "bool 1" | .bool false => "bool 0"
+
+def lineAt (c : Case) (key : String) (i : Nat) : Option (Array String) :=
+  (c.get key).find? fun l => l[0]? == some (toString i)
+
+def opMentionsBothOrientations (ops : List Op) : Bool := Id.run do
+  -- does some unordered pair get addressed as (lo,hi) and as (hi,lo)?
+  let mut seen : List (Nat × Nat) := []
+  for o in ops do
+    let p : Option (Nat × Nat) := match o with
+      | .addSep a b .. | .addFixedRelativeSep a b .. | .setCardinalOP a b _ | .hAlign a b | .vAlign a b
+      | .alignByEquatedCoord a b _ | .getCardinalDir a b | .areHAligned a b | .areVAligned a b => some (a, b)
+      | _ => none
+    match p with
+    | some (a, b) =>
+      if seen.contains (b, a) then return true
+      seen := (a, b) :: seen
+    | none => pure ()
+  return false
+
+def checkHistory (implFixed : Bool) (c : Case) : CaseResult := Id.run do
+  let mut acc : Acc := {}
+  -- node sizes
+  let mut sizes : List (Nat × Rat × Rat) := []
+  for l in c.get "node" do
+    match num? l[1]!, num? l[2]! with
+    | some w, some h => sizes := sizes ++ [(nat! l[0]!, w, h)]
+    | _, _ => return { verdict := .diverge "unparsable node line" }
+  let size : Nat → Dim → Rat := fun id d =>
+    match sizes.find? (·.1 == id) with
+    | some (_, w, h) => (match d with | .x => w | .y => h)
+    | none => 0
+  let opLines := c.get "op"
+  let mut mExp : SepMatrix := .empty      -- expected implementation semantics
+  let mut mIdeal : SepMatrix := .empty    -- requested meaning (flag correct on every retrieval)
+  let mut opsSoFar : List Op := []
+  let mut nontrivial := false
+  for l in opLines do
+    let i := nat! l[0]!
+    let some op := op? l | return { verdict := .diverge s!"unparsable op line {l}" }
+    opsSoFar := opsSoFar ++ [op]
+    let (m1, r1) := op.step implFixed mExp
+    let (m2, _) := op.step true mIdeal
+    mExp := m1; mIdeal := m2
+    acc := acc.bump ("op." ++ l[1]!)
+    if r1 == .threw then acc := acc.bump "op.threw"
+    -- result
+    match lineAt c "res" i with
+    | none => acc := acc.diverge s!"op {i}: no res line"
+    | some rl =>
+      let rs := " ".intercalate (rl.extract 1 rl.size).toList
+      if rs != resS r1 then acc := acc.diverge s!"op {i} {l.extract 1 l.size}: result impl '{rs}' model '{resS r1}'"
+    -- TGLF text
+    let implW := (lineAt c "w" i).bind (tglfLines? · 1)
+    let mw := mExp.writeTglf
+    match implW with
+    | none => acc := acc.diverge s!"op {i}: missing/unparsable w line"
+    | some iw =>
+      if iw != mw then
+        acc := acc.diverge s!"op {i} {l.extract 1 l.size}: writeTglf impl {iw.map (·.map TglfLine.render)} model {mw.map (·.map TglfLine.render)}"
+    -- generated constraints
+    for (key, dim, dn) in [("cx", Dim.x, "X"), ("cy", Dim.y, "Y")] do
+      match (lineAt c key i).bind (vcons? · 1) with
+      | none => acc := acc.diverge s!"op {i}: missing/unparsable {key} line"
+      | some ic =>
+        let mc := mExp.generateSeparationConstraints dim size
+        let idl := mIdeal.generateSeparationConstraints dim size
+        if !ic.isEmpty then nontrivial := true
+        if ic != mc then
+          acc := acc.diverge s!"op {i} {l.extract 1 l.size}: {dn} constraints impl {vconsS ic} model {vconsS mc}"
+        match distinguish ic idl with
+        | none => pure ()
+        | some (a, b, d) =>
+          let stale := ic == (runOps false .empty opsSoFar).generateSeparationConstraints dim size
+          let kind := if stale && opMentionsBothOrientations opsSoFar then "stale-flippedRetrieval" else "history-meaning"
+          acc := acc.specfail s!"{kind}: after op {i} {l.extract 1 l.size} the stored {dn} constraints {vconsS ic} do not mean what the history requested {vconsS idl}: with pos[{a}]=0, pos[{b}]={ratToString d} exactly one of them holds (impl agrees with as-coded model: {stale})"
+  acc := acc.bump "pairs.final" mExp.pairs.length
+  return acc.result nontrivial
+
+/-! ### TGLF round trip on graphs -/
+
+structure NodeG where
+  ext : Int
+  cx : Rat
+  cy : Rat
+  w : Rat
+  h : Rat
+  deriving BEq, Repr, Inhabited
+
+def node? (l : Array String) : Option NodeG := do
+  let v ← nums? (l.extract 2 6)
+  pure { ext := int! l[1]!, cx := v[0]!, cy := v[1]!, w := v[2]!, h := v[3]! }
+
+structure EdgeG where
+  s : Nat
+  t : Nat
+  pts : Array Rat
+  deriving BEq, Repr, Inhabited
+
+def edge? (l : Array String) (o : Nat) : Option EdgeG := do
+  let np := nat! l[o+2]!
+  let v ← nums? (l.extract (o+3) (o+3+2*np))
+  pure { s := nat! l[o]!, t := nat! l[o+1]!, pts := v }
+
+/-- `a` read back as `b`: exact, or within the 6 significant digits of `ostream <<` -/
+def closeGeom (fine : Bool) (a b : Rat) : Bool :=
+  if fine then absRat (a - b) ≤ absRat a * (5001 / 1000000000 : Rat) else a == b
+
+def checkTglf (implFixed : Bool) (fine : Bool) (c : Case) : CaseResult := Id.run do
+  let mut acc : Acc := {}
+  let mut nodes : Array NodeG := #[]
+  for l in c.get "node" do
+    match node? l with
+    | some n => nodes := nodes.push n
+    | none => return { verdict := .diverge "unparsable node line" }
+  -- replay the ops on the model (node indices as ids)
+  let mut m : SepMatrix := .empty
+  for l in c.get "op" do
+    let some op := op? l | return { verdict := .diverge s!"unparsable op line {l}" }
+    let (m1, r1) := op.step implFixed m
+    m := m1
+    acc := acc.bump ("op." ++ l[1]!)
+    match lineAt c "res" (nat! l[0]!) with
+    | some rl => if " ".intercalate (rl.extract 1 rl.size).toList != resS r1 then
+        acc := acc.diverge s!"op {l}: result differs from model {resS r1}"
+    | none => acc := acc.diverge s!"op {l}: no res line"
+  let size1 : Nat → Dim → Rat := fun id d =>
+    match nodes[id]? with
+    | some n => (match d with | .x => n.w | .y => n.h)
+    | none => 0
+  let some g1x := (c.get1 "g1cx").bind (vcons? · 0) | return { verdict := .diverge "no g1cx" }
+  let some g1y := (c.get1 "g1cy").bind (vcons? · 0) | return { verdict := .diverge "no g1cy" }
+  -- exact on the dyadic class; the fine class has inexact double additions (1e-9 tolerance)
+  let sameCons (a b : List VCon) : Bool :=
+    if fine then a.length == b.length && (a.zip b).all fun (x, y) =>
+      x.left == y.left && x.right == y.right && x.equality == y.equality &&
+      absRat (x.gap - y.gap) ≤ (1 / 1000000000 : Rat)
+    else a == b
+  if !sameCons g1x (m.generateSeparationConstraints .x size1) then
+    acc := acc.diverge s!"original graph: X constraints impl {vconsS g1x} model {vconsS (m.generateSeparationConstraints .x size1)}"
+  if !sameCons g1y (m.generateSeparationConstraints .y size1) then
+    acc := acc.diverge s!"original graph: Y constraints impl {vconsS g1y} model {vconsS (m.generateSeparationConstraints .y size1)}"
+  let mw := m.writeTglf
+  -- did the writer throw?
+  match c.get1 "tglf" with
+  | none => return { verdict := .diverge "no tglf line" }
+  | some tl =>
+    if tl[0]? == some "THROW" then
+      if mw.isSome then acc := acc.diverge "Graph::writeTglf threw but the model writes the constraints"
+      acc := acc.bump "tglf.throw"
+      return acc.result false
+  -- the text: sections separated by "#"
+  let tlines := (c.get "t").map fun l => l.extract 1 l.size
+  let mut sect := 0
+  let mut nodeLines : Array (Array String) := #[]
+  let mut sepLines : Array (Array String) := #[]
+  for l in tlines do
+    if l == #["#"] then sect := sect + 1
+    else if sect == 0 then nodeLines := nodeLines.push l
+    else if sect == 2 then sepLines := sepLines.push l
+  let writtenId (i : Nat) : Nat := nat! ((nodeLines[i]?.getD #["0"])[0]!)
+  let indexOfWritten (w : Nat) : Nat := (nodeLines.findIdx? fun l => nat! l[0]! == w).getD 0
+  -- model writer vs the SEPCO section
+  match mw with
+  | none => acc := acc.diverge "model writer throws but Graph::writeTglf did not"
+  | some mls =>
+    let mtxt := mls.map fun l => ({ l with src := writtenId l.src, tgt := writtenId l.tgt } : TglfLine).render
+    let itxt := sepLines.toList.map fun l => " ".intercalate l.toList
+    if mtxt != itxt then acc := acc.diverge s!"SEPCO section: impl {itxt} model {mtxt}"
+    acc := acc.bump "tglf.sepco.lines" mls.length
+  -- graph read back
+  let mut nodes2 : Array NodeG := #[]
+  for l in c.get "node2" do
+    match node? l with
+    | some n => nodes2 := nodes2.push n
+    | none => return { verdict := .diverge "unparsable node2 line" }
+  if nodes2.size != nodes.size then
+    acc := acc.specfail s!"tglf round trip: {nodes.size} nodes written, {nodes2.size} read back"
+  else
+    for i in [0:nodes.size] do
+      let a := nodes[i]!; let b := nodes2[i]!
+      if !(closeGeom fine a.cx b.cx && closeGeom fine a.cy b.cy && closeGeom fine a.w b.w && closeGeom fine a.h b.h) then
+        acc := acc.specfail s!"tglf round trip: node {i} geometry ({ratToString a.cx},{ratToString a.cy},{ratToString a.w},{ratToString a.h}) read back as ({ratToString b.cx},{ratToString b.cy},{ratToString b.w},{ratToString b.h})"
+      if a.ext ≥ 0 && a.ext != b.ext then
+        acc := acc.specfail s!"tglf round trip: node {i} external id {a.ext} read back as {b.ext}"
+  -- edges
+  let e1 := (c.get "edge1").filterMap (edge? · 0)
+  let e2 := (c.get "edge2").filterMap (edge? · 0)
+  if e1.size != e2.size then
+    acc := acc.specfail s!"tglf round trip: {e1.size} edges written, {e2.size} read back"
+  else
+    for i in [0:e1.size] do
+      let a := e1[i]!; let b := e2[i]!
+      let same := a.s == b.s && a.t == b.t && a.pts.size == b.pts.size &&
+        (List.range a.pts.size).all fun j => closeGeom fine a.pts[j]! b.pts[j]!
+      if !same then
+        acc := acc.specfail s!"tglf round trip: edge {i} ({a.s}->{a.t}, {a.pts.size / 2} route points) read back as ({b.s}->{b.t}, {b.pts.size / 2} route points) or with moved points"
+      acc := acc.bump "tglf.routepoints" (a.pts.size / 2)
+  -- constraints: meaning preserved (the extra boundary gap is folded into the written gaps)
+  let some g2x := (c.get1 "g2cx").bind (vcons? · 0) | return { verdict := .diverge "no g2cx" }
+  let some g2y := (c.get1 "g2cy").bind (vcons? · 0) | return { verdict := .diverge "no g2cy" }
+  for (dn, a, b) in [("X", g1x, g2x), ("Y", g1y, g2y)] do
+    if fine then
+      -- same structure, gaps within half a unit of the writer's precision (3 decimals) plus the
+      -- half-extent error of the 6-digit node sizes
+      let na := normList a; let nb := normList b
+      let ok := na.length == nb.length && (na.zip nb).all fun (x, y) =>
+        x.left == y.left && x.right == y.right && x.equality == y.equality &&
+        absRat (x.gap - y.gap) ≤ (1 / 2000 : Rat) + absRat x.gap * (1 / 100000 : Rat)
+      if !ok then
+        acc := acc.specfail s!"tglf round trip: {dn} constraints {vconsS a} read back as {vconsS b} (beyond the writer's precision)"
+    else
+      match distinguish a b with
+      | none => pure ()
+      | some (p, q, d) =>
+        acc := acc.specfail s!"tglf round trip: {dn} constraints {vconsS a} read back as {vconsS b}: with pos[{p}]=0, pos[{q}]={ratToString d} exactly one side holds"
+  -- model reader on the C++ text vs the C++ reader's result
+  let mut ls : List TglfLine := []
+  for l in sepLines do
+    match tglfLine? l 0 with
+    | some tl => ls := ls ++ [{ tl with src := indexOfWritten tl.src, tgt := indexOfWritten tl.tgt }]
+    | none => acc := acc.diverge s!"unparsable SEPCO line {l}"
+  match readSepcos implFixed ls with
+  | none => acc := acc.diverge "model reader rejects the SEPCO section"
+  | some m2 =>
+    let size2 : Nat → Dim → Rat := fun id d =>
+      match nodes2[id]? with
+      | some n => (match d with | .x => n.w | .y => n.h)
+      | none => 0
+    for (dn, dim, b) in [("X", Dim.x, g2x), ("Y", Dim.y, g2y)] do
+      let mc := m2.generateSeparationConstraints dim size2
+      let ok := mc.length == b.length && (mc.zip b).all fun (x, y) =>
+        x.left == y.left && x.right == y.right && x.equality == y.equality &&
+        absRat (x.gap - y.gap) ≤ (1 / 1000000000 : Rat)
+      if !ok then acc := acc.diverge s!"reader: {dn} constraints impl {vconsS b} model {vconsS mc}"
+  let nontrivial := !(g1x.isEmpty && g1y.isEmpty) || e1.any (fun e => e.pts.size > 0)
+  acc := acc.bump "tglf.constraints" (g1x.length + g1y.length)
+  return acc.result nontrivial
+
+def run (args : List String) : IO UInt32 := do
+  let rec flagOf : List String → String
+    | "--impl-flag" :: v :: _ => v
+    | _ :: r => flagOf r
+    | [] => "stale"
+  let implFixed := flagOf args == "fixed"
+  runCases fun c =>
+    if c.tag == "table" then checkTable c
+    else if c.tag == "hist-oriented" || c.tag == "flip-history" then checkHistory implFixed c
+    else if c.tag == "tglf" then checkTglf implFixed false c
+    else if c.tag == "tglf-fine" then checkTglf implFixed true c
+    else { verdict := .diverge s!"unknown case class {c.tag}" }
 
 end Driver.C18
